@@ -2230,10 +2230,12 @@ class PseudoNetCDFFile(PseudoNetCDFSelfReg, object):
             for dk, dv in file1.dimensions.items():
                 if dv.isunlimited():
                     stackdim = dk
+                    break
             else:
                 for dk in list(file1.dimensions):
                     if dk in ('TSTEP', 'time', 'Time', 't'):
                         stackdim = dk
+                        break
                 else:
                     raise ValueError(
                         'No dimension is unlimited or time; ' +
